@@ -53,6 +53,7 @@ fn main() {
         ("replay", "urdf") => urdfx::replay(&args[3], &args[4]),
         ("replay", "rrt") => rrt::replay(&args[3], &args[4]),
         ("record", "rrtplan") => rrt::record(&args[3]),
+        ("replay", "wrapsampling") => rrt::replay_wrap_sampling(&args[3]),
         ("record", "stroke") => stroke::record(&args[3]),
         ("record", "ik") => solver::record(&args[3], &args[4]),
         ("record", "follow") => solver::record_follow(&args[3]),
